@@ -229,7 +229,7 @@ func buildC09(cfg *mon.Config) []*mon.Sub {
 		Floor: 1000,
 		Gen: func(emit func(string)) {
 			r := cfg.Rng("c09-random")
-			chars := []string{"a", "b", "Z", "0", "9", " ", "  ", "\t", ",", ";", "|", "\"", "'", "`", "\r", "\n", "\r\n", "é", "ÿ", "ш", "€", "￾", "\x01", "‖", "“", "\"\"", "''", ".", "-", "#", "/", "{"}
+			chars := []string{"a", "b", "Z", "0", "9", " ", "  ", "\t", ",", ";", "|", "\"", "'", "`", "\r", "\n", "\r\n", "é", "ÿ", "ш", "€", "￾", "\x01", "\v", "\f", "\x1f", "\x7f", "‖", "“", "\"\"", "''", ".", "-", "#", "/", "{"}
 			for i := 0; i < cfg.N(20000, 1500000); i++ {
 				cc := mon.Pick(r, csvConfigs)
 				cc.Eol = mon.Pick(r, csvEols)
